@@ -94,6 +94,11 @@ class Ctx:
     def violation(self, data, nofail=False):
         path = self.write_replay(data)
         self.violations.append((path, nofail))
+        # one line of context in the log (the replay file may not outlive the run that wrote it)
+        try:
+            self.note("violation detail: %s | %s" % (data.get("kind"), str(data.get("what", data.get("entry", "")))[:600]))
+        except Exception:
+            pass
         return path
 
 
